@@ -143,6 +143,17 @@ def c_torus_adj():
     return f"Definition gen_torus_adj (w h : Z) (torus : bool) (pos : Z * Z) : option (Z * Z) :=\n  {body}."
 
 
+def c_torus_adj_2d():
+    fn = T._find_func(_cls("_HexGrid"), "torus_adj_2d")
+    _params(fn, ["self", "pos"])
+    tr = pyexpr.Tr(attr_map=ATTRS, tuple_names=["pos"])
+    try:
+        body = tr.body(list(fn.body), "tuple")
+    except pyexpr.Unsupported as e:
+        raise T.Broken(f"torus_adj_2d is outside the translated subset: {e}") from None
+    return f"Definition gen_torus_adj_2d (w h : Z) (pos : Z * Z) : Z * Z :=\n  {body}."
+
+
 def c_distance_squared():
     fn = T._find_func(_cls("_Grid"), "_distance_squared")
     _params(fn, ["self", "pos1", "pos2"])
@@ -489,6 +500,8 @@ WARN = ("warn_if_agent_has_position_already",)
 CONSTRUCTS = [
     ("grid_torus_adj_code", SRC, c_torus_adj,
      lambda: "Definition gen_torus_adj (w h : Z) (torus : bool) (pos : Z * Z) : option (Z * Z) := None."),
+    ("hexgrid_torus_adj_2d_code", SRC, c_torus_adj_2d,
+     lambda: "Definition gen_torus_adj_2d (w h : Z) (pos : Z * Z) : Z * Z := (-1, -1)."),
     ("grid_distance_squared_code", SRC, c_distance_squared,
      lambda: "Definition gen_distance_squared (w h : Z) (torus : bool) (pos1 pos2 : Z * Z) : Z := -1."),
     ("grid_is_cell_empty_code", SRC, c_is_cell_empty,
